@@ -18,7 +18,8 @@ import Jap.Gen.NsTables
 
 open Lean Jap.Heap
 
-def pol : Policy := policyOfTable Jap.Gen.HeapSites.kindTable Jap.Gen.HeapSites.stripMetaCopiesEmpty
+def pol : Policy :=
+  policyOfTable Jap.Gen.HeapSites.kindTable Jap.Gen.HeapSites.stripMetaCopiesEmpty Jap.Gen.HeapSites.dictSubclassContentKept
 def cs : Sites := sitesOfTable Jap.Gen.HeapSites.copySites
 def metaKeys : List String := Jap.Gen.metaKeys
 
